@@ -142,6 +142,14 @@ class Farm:
         sys.stderr.flush()
         pid = os.fork()
         if pid == 0:
+            # one core per zygote (and per everything it forks): the native thread pools of the dependencies
+            # (rapidfuzz cdist(workers=-1), KDTree workers) otherwise start 16 threads in each of 16 processes
+            try:
+                cores = sorted(os.sched_getaffinity(0))
+                if os.environ.get("VERIF_PIN", "1") == "1" and len(cores) > 1:
+                    os.sched_setaffinity(0, {cores[len(self.z) % len(cores)]})
+            except (AttributeError, OSError):
+                pass
             parent.close()
             for _, c in self.z:
                 try:
